@@ -31,7 +31,8 @@ META = dict(
 
 def alphabet(v):
     p = V(v)
-    g1, g2 = ['ideal', p['n1'], 0.0], ['ideal', p['n2'], 0.0]
+    # weakly absorbing ideal glasses: the pupil transmission is not uniform (it must not enter any OPD statistic)
+    g1, g2 = ['ideal', p['n1'], 3e-6], ['ideal', p['n2'], 5e-6]
     t = p['t']
     return [
         S('sphere', R=p['R'], mat='N-BK7', t=t[1]),
@@ -199,6 +200,24 @@ def run_unit(unit):
                         ref = geometric_opd(o, rows_w, Hy, Px, Py, w, xpl)
                         cmp_opd(part, 'opd-all-fields-all-wavelengths', 'Wavefront', cond,
                                 dict(det0, wavelength=w, Hy=Hy, call='fields=all,wavelengths=all'), wf.data[fi][wi][0], ref)
+            # ---- history: replace the first glass through set_index on this lens object, analyse again at the same wavelength
+            gi = next((i for i, s_ in enumerate(sp['surfs']) if s_['mat'] not in ('air', 'mirror')), None)
+            if gi is not None and off == 0.0 and math.isfinite(xpl):
+                import copy as _copy
+                sp_h = _copy.deepcopy(sp)
+                sp_h['surfs'][gi]['mat'] = ['ideal', 1.66, 0.0]
+                o.set_index(1.66, gi + 1)
+                part.transitions += 1
+                rows_h = prescription.rows(sp_h, lambda m, prev: LZ.ref_index(m, 0.5876, prev))
+                xpl_h = abcd.XPL(rows_h)
+                if math.isfinite(xpl_h) and abs(xpl_h) < 1e6:
+                    d = dist_points('hexapolar', 3)
+                    Px, Py = np.asarray(d.x, float).copy(), np.asarray(d.y, float).copy()
+                    wf = Wavefront(o, fields=[(0.0, 1.0)], wavelengths=[0.5876], num_rays=3, distribution='hexapolar')
+                    part.evals += 1
+                    ref = geometric_opd(o, rows_h, 1.0, Px, Py, 0.5876, xpl_h)
+                    cmp_opd(part, 'opd-after-set_index', 'Wavefront', cond, dict(det0, after='set_index(1.66)', surface=gi + 1), wf.data[0][0][0], ref)
+                o = LZ.build(sp)      # back to the unedited lens for what follows
             if not short or off != 0.0:
                 continue
             # ---- derived quantities on their documented samples ---------------------------------------------------------
